@@ -200,8 +200,10 @@ namespace igris
                     // rnrnrnrn
                     if ((_last == '\n' || _last == '\r') && _last != c)
                     {
+                        // Вторая половина пары CRLF/LFCR. Выходим сразу, чтобы
+                        // сброшенный _last не был перезаписан в конце функции.
                         _last = 0;
-                        retcode = READLINE_NOTHING;
+                        return READLINE_NOTHING;
                     }
                     else
                     {
